@@ -254,6 +254,26 @@ impl<T> Iterator for Plain<T> {
 }
 impl<T> ExactSizeIterator for Plain<T> {}
 
+/// An iterator whose size hint is a true but loose bound (lower bound half the length, no upper bound), as
+/// filter / flat_map / skip_while adaptors give.
+pub struct Loose<T> {
+    items: std::vec::IntoIter<T>,
+}
+impl<T> Loose<T> {
+    pub fn new(v: Vec<T>) -> Self {
+        Loose { items: v.into_iter() }
+    }
+}
+impl<T> Iterator for Loose<T> {
+    type Item = T;
+    fn next(&mut self) -> Option<T> {
+        self.items.next()
+    }
+    fn size_hint(&self) -> (usize, Option<usize>) {
+        (self.items.len() / 2, None)
+    }
+}
+
 // ------------------------------------------------------------------ panic capture
 
 thread_local! {
